@@ -86,7 +86,7 @@ CLAIMS = {
     "C13": ("11 theorems (ValidaProofs/C13.lean, C13Schema.lean): headline `C13_schema_roundtrip` (C13Schema.lean): a sorted schema whose rules have round-tripping conditions (C11), serialisable paths built by the constructor (C12) and casts from the library's table is written and parsed back to an equal schema (`schemaEq`), casts included; `C13_rule_roundtrip_eq` for single rules. Also: cast tables invert, shape of a serialised rule, cast round trip for both declared casts, "
             "rule round trip from the condition and path round trips, re-sorting a sorted rule list is the identity.",
             "DESIGN.md section 7 C13"),
-    "C14": ("20 theorems (ValidaProofs/C14.lean, C14Behave.lean): headline `C14_same_behaviour` / `C14_same_is_equal` / `C14_same_equiv`: conditions that are the same up to the order of the operands of any combination and the order of the keyword arguments of any single condition (identical arguments) compare equal AND give the same booleans, error flags, stripped data and paths on all data, with and without paths (guard `filterUnpacksValuesOnly = true` read from the source; the attempt to prove this found defect D32). Also: condition / part / path / rule equality is reflexive, symmetric and transitive wherever "
+    "C14": ("26 theorems (ValidaProofs/C14.lean, C14Behave.lean, C14Paths.lean): lifted to parts, paths and rules (`C14_path_same_selection`: the same paths select the same nodes with the same concrete paths through every entry point, and compare equal; `C14_rule_same_verdict`: the same rules give the same rule test on every document); headline `C14_same_behaviour` / `C14_same_is_equal` / `C14_same_equiv`: conditions that are the same up to the order of the operands of any combination and the order of the keyword arguments of any single condition (identical arguments) compare equal AND give the same booleans, error flags, stripped data and paths on all data, with and without paths (guard `filterUnpacksValuesOnly = true` read from the source; the attempt to prove this found defect D32). Also: condition / part / path / rule equality is reflexive, symmetric and transitive wherever "
             "Python == is an equivalence on the stored values (proved for hashable values) and keyword names are distinct (as in every real "
             "object; counterexamples without that hypothesis are kernel-checked), commuted operands compare equal and filter identically, "
             "sensitivity to class / callable / operator / kind / list and map conditions. Known finding D16 (numerically equal arguments of "
